@@ -58,7 +58,7 @@ def deep_copy(v):
     return v
 
 
-def decorate(rng, doc, draft):
+def decorate(rng, doc, draft, default_pool=None):
     d = deep_copy(doc)
     pos = []
     positions(d, pos)
@@ -74,7 +74,7 @@ def decorate(rng, doc, draft):
             if k in ("title", "description", "$comment", "format", "contentEncoding", "contentMediaType"):
                 v = rng.choice(["t", "email", "date-time", "base64", "application/json", "", "ipv4", "regex"])
             elif k == "default":
-                v = gs.gen_value(rng, 2)
+                v = gs.gen_value(rng, 2) if not default_pool or rng.random() < 0.3 else rng.choice(default_pool)
             elif k == "examples":
                 v = [gs.gen_value(rng, 1) for _ in range(rng.randint(0, 3))]
             elif k == "contentSchema":
@@ -155,12 +155,87 @@ def has_both_defs(doc):
     return any(o.get("$defs") is not None and o.get("definitions") is not None for o in pos)
 
 
+def tree_case(rng):
+    """The canonical use of $dynamicRef: an extensible recursive tree in a Loader document, closed / specialised by the root and by one
+    or two embedded resources of the root that each declare (or not) the dynamic anchor. Decorations — above all `default`s whose values
+    are themselves trees — are added to the root document; with ValidateDefaults they are validated during Resolve, with the carrying
+    schema at the bottom of the dynamic scope, and must leave no trace."""
+    T = "http://x.test/t/tree"
+    child = rng.choice(["children", "kids"])
+    tree = Obj([("$id", T), ("$dynamicAnchor", "node"), ("type", "object"),
+                ("properties", Obj([(child, Obj([("type", "array"), ("items", Obj([("$dynamicRef", rng.choice(["#node", "tree#node"]))]))]))]))])
+    if rng.random() < 0.3:
+        tree.get("properties").set("val", Obj([("type", "number")]))
+
+    def variant(i):
+        kind = rng.choice(["closed", "typed", "open", "req"])
+        v = Obj([("$id", "http://x.test/t/v%d" % i)])
+        if rng.random() < 0.8:
+            v.set("$dynamicAnchor", "node")
+        elif rng.random() < 0.5:
+            v.set("$anchor", "node")
+        v.set("$ref", rng.choice(["tree", T]))
+        if kind == "closed":
+            v.set("unevaluatedProperties", False)
+        elif kind == "typed":
+            v.set("properties", Obj([("x", Obj([("type", "number")]))]))
+        elif kind == "req":
+            v.set("required", ["val"])
+        return v
+    root = variant(0)
+    root.kvs[0] = ("$id", "http://x.test/t/root")
+    defs = Obj([("v%d" % i, variant(i)) for i in range(1, rng.randint(2, 4))])
+    root.set("$defs", defs)
+    if rng.random() < 0.4:
+        root.set("properties", Obj([("alt", Obj([("$ref", "#/$defs/v1")]))]))
+    leafs = [Obj(), Obj([("x", Num("1"))]), Obj([("x", "s")]), Obj([("val", Num("2"))]), Obj([("daat", Num("1"))]), Num("3")]
+
+    def inst(d):
+        if d <= 0 or rng.random() < 0.3:
+            return rng.choice(leafs)
+        o = Obj([(child, [inst(d - 1) for _ in range(rng.randint(0, 2))])])
+        if rng.random() < 0.3:
+            o.kvs.append(rng.choice([("x", Num("1")), ("x", "s"), ("val", Num("1")), ("daat", None)]))
+        return o
+    insts = [inst(rng.randint(0, 3)) for _ in range(8)] + [Obj([("alt", inst(2))])]
+    doc2 = deep_copy(root)
+    pos = []
+    positions(doc2, pos)
+    def deep():
+        for _ in range(8):
+            v = inst(rng.randint(1, 3))
+            if isinstance(v, Obj) and isinstance(v.get(child), list) and v.get(child):
+                return v
+        return Obj([(child, [Obj()])])
+    resources = [o for o in pos if o.get("$id") is not None]
+    for _ in range(rng.randint(1, 3)):
+        o = rng.choice(resources) if rng.random() < 0.6 else rng.choice(pos)
+        k = rng.choice(["default", "default", "default", "examples", "title", "x-foo", "contentSchema"])
+        if o.get(k) is not None:
+            continue
+        if k == "default":
+            o.set(k, deep() if rng.random() < 0.7 else inst(rng.randint(0, 3)))
+        elif k == "examples":
+            o.set(k, [inst(2)])
+        elif k == "contentSchema":
+            o.set(k, Obj([("$ref", "tree")]))
+        else:
+            o.set(k, "t")
+    args = {"schema": root, "schema2": doc2, "docs": [[T, tree]], "loader": True, "insts": insts}
+    if rng.random() < 0.7:
+        args["validateDefaults"] = True
+    return {"op": "decorate", "args": args, "meta": {"kw": 6, "folded": False, "tree": True, "vd": bool(args.get("validateDefaults"))}}
+
+
 def gen(rng, tier, n):
     from . import c07
     ops = []
     depth = 3 if tier == "quick" else 4
     while len(ops) < n:
         draft = "2020" if rng.random() < 0.7 else "7"
+        if rng.random() < 0.07:
+            ops.append(tree_case(rng))
+            continue
         if draft == "2020" and rng.random() < 0.12:
             # documents in which annotations matter (contains / properties / in-place applicators under unevaluated*): a decoration
             # inside an annotation-producing subschema (e.g. a title inside `contains: {}`) must not change what it evaluates
@@ -189,13 +264,30 @@ def gen(rng, tier, n):
             # a decoration next to a bare $ref hop of a dynamic-scope topology must not change which resources are in scope
             from . import c06
             ot = c06.topo(rng)
-            if ot["args"]["docs"]:
-                continue
             doc = ot["args"]["schema"]
-            doc2, folded = decorate(rng, doc, draft)
-            ops.append({"op": "decorate", "args": {"schema": doc, "schema2": doc2, "base": ot["args"]["base"],
-                                                    "insts": rng.sample(ot["args"]["insts"], min(8, len(ot["args"]["insts"])))},
-                        "meta": {"kw": gs.count_keywords(doc), "folded": folded, "topo": True}})
+            insts = rng.sample(ot["args"]["insts"], min(8, len(ot["args"]["insts"])))
+            args = {"schema": doc, "base": ot["args"]["base"], "insts": insts}
+            pool = None
+            if ot["args"]["docs"]:
+                # resources supplied by the Loader; with ValidateDefaults every `default` of the root tree is validated during Resolve
+                # (with the schema that carries it at the bottom of the dynamic scope) — that must leave no trace in later Validate calls
+                args["docs"], args["loader"] = ot["args"]["docs"], True
+                if rng.random() < 0.6:
+                    args["validateDefaults"] = True
+                    pool = insts
+            doc2, folded = decorate(rng, doc, draft, pool)
+            if pool and isinstance(doc2, Obj):
+                # one more `default`, taken from the instances, on a resource of the root document
+                pos = []
+                positions(doc2, pos)
+                res = [o for o in pos if o.get("$id") is not None or o is doc2]
+                if res:
+                    o = rng.choice(res)
+                    if o.get("default") is None:
+                        o.set("default", rng.choice(pool))
+            args["schema2"] = doc2
+            ops.append({"op": "decorate", "args": args, "meta": {"kw": gs.count_keywords(doc), "folded": folded, "topo": True,
+                                                                "vd": bool(args.get("validateDefaults"))}})
             continue
         c = gs.Ctx(rng, draft, depth=rng.choice([1, 2, depth]), meta=0)
         doc = gs.gen_document(c, rng.choice(gs.D7_URIS) if draft == "7" else None)
@@ -232,6 +324,22 @@ def judge(o, go, m):
     H = (mo.get("b") or {}).get("H") or []
     # correspondence with the model on both documents first: the model reproduces encoding/json's case-insensitive field matching, so a
     # disagreement is a violation also on documents with a case-folding key (known finding D4 is what the model predicts, nothing else)
+    vd = bool(o["args"].get("validateDefaults"))
+    if vd:
+        # Resolve with ValidateDefaults may refuse a document (an added default that does not validate; known finding D19: any
+        # $dynamicRef in the root tree) where the driver's plain resolution succeeds: compare with the model only where Resolve succeeded,
+        # and the two documents only when both resolved
+        for side in ("a", "b"):
+            g = go.get(side) or {}
+            if g.get("outcome") == "resolved":
+                st, d = vjudge.judge_validate({"meta": {}}, g, mo.get(side), compare_targets=False)
+                if st.startswith("violation"):
+                    return st, side + " (ValidateDefaults): " + d
+            elif g.get("outcome") not in ("resolve-error", "unmarshal-error"):
+                return "violation", "%s: %r" % (side, g.get("outcome"))
+        if ga.get("outcome") == "resolved" and gb.get("outcome") == "resolved" and ga.get("verdicts") != gb.get("verdicts"):
+            return "violation", "a decoration changes verdicts under ValidateDefaults: undecorated %r, decorated %r" % (ga.get("verdicts"), gb.get("verdicts"))
+        return "agree", ""
     for side in ("a", "b"):
         st, d = vjudge.judge_validate({"meta": {}}, go.get(side), mo.get(side), compare_targets=False)
         if st.startswith("violation"):
